@@ -891,7 +891,7 @@ func argString(args []Val) string {
 
 // instantiatePure assumes requires ==> ensures for one ground application.
 func (x *Exec) instantiatePure(env *Env, qn string, c *Contract, f *ssa.Function, args []Val, r Val, rt types.Type) {
-	if env.depth > 0 {
+	if env.depth > x.instDepth {
 		return // nested applications inside an instantiated contract stay opaque
 	}
 	key := "inst:" + qn + ":" + argString(args) + ":" + heapKey(env.st)
